@@ -5,6 +5,7 @@ import (
 	"errors"
 	"fmt"
 	"io"
+	"regexp"
 	"sort"
 	"strings"
 	"sync/atomic"
@@ -416,6 +417,22 @@ type c18Life struct {
 	stats      *[4]int64
 }
 
+// c18Dump renders the three GridFS collections as the bucket's own database handle sees them.
+func c18Dump(w *world.World) string {
+	var sb strings.Builder
+	for _, coll := range []string{"fs.files", "fs.chunks", "fs.markers"} {
+		docs, err := findAll(w.Ctx, w.Client.Database("g").Collection(coll))
+		fmt.Fprintf(&sb, "%s (%v):\n", coll, err)
+		for _, d := range docs {
+			// upload dates are wall-clock values: only their presence is compared
+			sb.WriteString(" " + c18DateRE.ReplaceAllString(d, `"$$date":"*"`) + "\n")
+		}
+	}
+	return sb.String()
+}
+
+var c18DateRE = regexp.MustCompile(`"\$date":\{[^}]*\}|"\$date":"[^"]*"`)
+
 var c18Actions = []string{"open", "write3", "write1", "suspend", "resume", "close", "abort", "claim", "delete", "cleanup", "download"}
 
 func (l *c18Life) viol(class, msg string) {
@@ -548,6 +565,33 @@ func (l *c18Life) Step(a int) bool {
 			l.off, l.closedL = 0, -1
 		}
 	case "claim":
+		// first inside a session transaction whose callback fails afterwards: nothing of it may stay, and the claim
+		// proper behaves as if the attempt had never been made
+		if _, _, fm := c18State(w, "f"); len(fm) == 0 {
+			// nothing to claim: the plain call below reports that
+		} else if sess, serr := w.Client.StartSession(); serr == nil {
+			// (a second, completed upload whose records come after those of "f" in every collection)
+			if l.tracked {
+				if _, _, ms := c18State(w, "z"); len(ms) == 0 {
+					if s, err := l.bucket.OpenUploadStreamWithID(w.Ctx, "z", "other", options.GridFSUpload().SetChunkSizeBytes(2)); err == nil {
+						s.VerifSetBufferSize(4)
+						_, _ = s.Write([]byte{9, 8, 7})
+						_ = s.Close()
+					}
+				}
+			}
+			before := c18Dump(w)
+			_, _ = sess.WithTransaction(w.Ctx, func(sc lungo.ISessionContext) (interface{}, error) {
+				_ = l.bucket.ClaimUpload(sc, "f")
+				return nil, fmt.Errorf("the caller gives up")
+			})
+			sess.EndSession(w.Ctx)
+			if after := c18Dump(w); after != before {
+				l.trace = append(l.trace, "claim inside a failing transaction")
+				l.viol("aborted-claim-changes-state", "a ClaimUpload inside a transaction that was aborted changed the bucket:\n"+firstDiff(before, after))
+				return false
+			}
+		}
 		err := l.bucket.ClaimUpload(w.Ctx, "f")
 		l.trace = append(l.trace, fmt.Sprintf("claim=%v", err != nil))
 	case "delete":
@@ -586,6 +630,19 @@ func (l *c18Life) Step(a int) bool {
 		}
 	case "download":
 		l.trace = append(l.trace, name)
+		// with no upload in progress the database is persisted and reloaded first: the bucket looks the same afterwards
+		if ch, fl, mk := c18State(w, "f"); l.stream == nil && (len(ch) > 0 || fl != nil || len(mk) > 0) {
+			before := c18Dump(w)
+			if err := w.Reload(); err != nil {
+				l.viol("reload", "persist-and-reload failed: "+err.Error())
+				return false
+			}
+			l.bucket = c18Bucket(w, l.tracked)
+			if after := c18Dump(w); after != before {
+				l.viol("reload-changes-bucket", "after persist-and-reload the GridFS collections differ:\n"+firstDiff(before, after))
+				return false
+			}
+		}
 	}
 	atomic.AddInt64(&l.stats[0], 1)
 	// ---- invariants after every step
